@@ -29,7 +29,7 @@ macro_rules | `(tactic| rows_congr $n) => do
 /-- closes a round lemma after the generated loop has been unfolded once: unfold the generated word functions, bring the
     index sums into one order, compare (deciding the words, keeping the recursive call / `List.set` / `List.getD` folded) -/
 macro "rows_eq" : tactic =>
-  `(tactic| ((try simp only [gen_defs]) <;> (try simp only [Nat.add_comm, Nat.add_left_comm, Nat.add_assoc]) <;> rows_congr 6))
+  `(tactic| ((try simp only [gen_defs]) <;> (try simp only [Nat.add_comm, Nat.add_left_comm, Nat.add_assoc]) <;> (try simp only [BitVec.mul_comm]) <;> rows_congr 6))
 
 /-- the same when the round still contains the address test `if k >= lhs.len()` in whatever spelling: take the branch the
     hypotheses in the context select (the other one is contradictory) -/
